@@ -19,6 +19,8 @@ NAME_SCHEMES = {
     'u': lambda i: ['q₀', 'q₁', 'p¹', '①', 'qγ', 'Ω', 'q₂', 'p²', '②', 'q₁₀', 'Ωγ', 'q₃'][i],   # word-character names with non-decimal digit characters / outside latin-1
     'g': lambda i: ['start', 'start2', 'accept', 'accept2', 'start1', 'accept1'][i],   # names the library itself generates as fresh (prefix + count)
     'K': lambda i: ['Final', 'Initial', 'States', 'Epsilon', 'Blank', 'Accept'][i],    # keywords in another letter case
+    'b': lambda i: ['{}', '{q0}', '{q0,q1}', '(s0,r0)', '{q1}', '(s0,r1)'][i],         # names the library's own constructions produce (sets, pairs)
+    'n': lambda i: ['\u212a', '\u2126', 'q\u212b', 'K', '\u03a9', 'q\u00c5'][i],      # code points that change under unicode normalisation (KELVIN SIGN vs K, OHM SIGN vs Omega)
 }
 
 # Presentation knobs (set by mc.props.common:t_knobs around a whole task).  They change HOW an instance is handed
@@ -79,7 +81,8 @@ def dfas(n, k, start=0, step=1):
 ALPHABETS = {'ab': ['a', 'b', 'c'], '01': ['0', '1', '2'],
              'w': ['a', 'b', 'c', 'd', 'e', 'f', 'g'],   # wide: CPython orders a 5-7 element set and its copy differently
              'gr': ['γ', 'δ', 'λ'],                       # letters outside latin-1 (not cached single-character objects)
-             'eps': ['e', 'p', 's']}                      # words over it spell tokens ('eps')
+             'eps': ['e', 'p', 's'],                      # words over it spell tokens ('eps')
+             'nf': ['\u2126', '\u212a', 'K']}               # symbols that change under unicode normalisation
 
 
 def dorder(items, keyf):
@@ -227,52 +230,75 @@ def morph_dfa(spec, scheme='s'):
 
 
 def morph_nfa(spec, scheme='s', eps='', enc='sparse'):
+    """One live NFA rewritten in place.  Two styles: (every third rewrite) the dict is cleared and refilled
+    with new set objects; (the other rewrites) entries that exist before and after keep their set OBJECT, whose content is
+    changed in place - a remembered shallow copy of delta then still looks equal to the current delta."""
     Q, Sg, T, q0, F = nfa_parts(spec, scheme, eps)
     key = ('nfa', enc)
     N = _LIVE.get(key)
     if N is None:
         N = _LIVE[key] = build_nfa(spec, scheme, eps, enc)
+        _LIVE[key + ('n',)] = 0
         return N
-    N.Q.clear(); N.Q.update(Q)
-    N.Sigma.clear(); N.Sigma.update(Sg)
-    N.delta.clear()
+    _LIVE[key + ('n',)] = _LIVE.get(key + ('n',), 0) + 1
+    want = {}
     if enc == 'total':
         for q in Q:
             for a in Sg + [eps]:
-                N.delta[q, a] = set()
+                want[q, a] = set()
     for (p, a, q) in T:
-        N.delta[p, a].add(q) if (enc != 'total') else N.delta[p, a].add(q)
+        want.setdefault((p, a), set()).add(q)
+    N.Q.clear(); N.Q.update(Q)
+    N.Sigma.clear(); N.Sigma.update(Sg)
+    if _LIVE[key + ('n',)] % 3 == 0:
+        N.delta.clear()
+        for k, v in want.items():
+            N.delta[k] = v
+    else:
+        for k in list(N.delta):
+            if k not in want:
+                del N.delta[k]
+        for k, v in want.items():
+            if k in N.delta and type(N.delta[k]) is set:
+                N.delta[k].clear()
+                N.delta[k].update(v)
+            else:
+                N.delta[k] = v
     N.q0 = q0
     N.F.clear(); N.F.update(F)
     N.epsilon = eps
     return N
 
 
-def anchored_swap_family(anchors=10):
-    """Thin family with MANY Nerode classes (wave 5): 4 letters, one accepting sink (state 0), `anchors` anchor states
-    with pairwise different one-step behaviour (anchor i goes to the sink on its own subset of the letters and to the next
-    anchor otherwise), and two states v, w whose successors X, Y under two chosen letters are swapped (v is initial; on
-    the other letters v and w go to each other).  All states are reachable and pairwise distinguishable, so a minimiser
-    must return anchors + 3 states; a refinement that confuses class numbers >= 10 (two-digit keys) merges v and w.
-    All ordered letter pairs x all ordered pairs (X, Y) of non-sink states."""
-    k = 4
-    subsets = [S for r in (1, 2, 3) for S in itertools.combinations(range(k), r)][:anchors]
-    A = list(range(1, anchors + 1))
-    v, w = anchors + 1, anchors + 2
-    n = anchors + 3
+def star13_family(n=13):
+    """Thin family (wave 6): n states, two letters; the initial state 0 goes on the first letter to the pair {i, j} and
+    on the second letter to the single state k, which is accepting; every other state is a dead end.  For n >= 13 the
+    subsets {1, 2} and {12} (and their like) print alike when state NUMBERS are concatenated without a separator."""
     idx = 0
-    for (la, lb) in itertools.permutations(range(k), 2):
-        for (X, Y) in itertools.permutations(A + [v, w], 2):
-            if {X, Y} == {v, w}:
+    for i in range(1, n):
+        for j in range(i + 1, n):
+            for k in range(1, n):
+                if k in (i, j):
+                    continue
+                yield idx, ('nfa', n, 2, ((0, 0, i), (0, 0, j), (0, 1, k)), 0, 1 << k)
+                idx += 1
+
+
+def heap_pairs(n=12, k=2):
+    """Thin family (wave 6) for pair checks: the 'heap' DFA on n states over k letters (state i goes to k*i+1 .. k*i+k
+    modulo n: breadth-first numbering from state 0 is the identity), accepting state n-2, against every DFA obtained by
+    redirecting ONE row to another tuple of targets.  Rows such as (1, 10) and (11, 0) read alike when written without
+    a separator."""
+    base = [(k * i + 1 + c) % n for i in range(n) for c in range(k)]
+    fb = 1 << (n - 2)
+    A = ('dfa', n, k, tuple(base), 0, fb)
+    idx = 0
+    yield idx, (A, A)
+    for row in range(n):
+        for tgt in itertools.product(range(n), repeat=k):
+            d = list(base)
+            d[row * k:(row + 1) * k] = tgt
+            if d == base:
                 continue
-            d = [0] * (n * k)
-            for i, S in enumerate(subsets):
-                for c in range(k):
-                    d[A[i] * k + c] = 0 if c in S else A[(i + 1) % anchors]
-            for c in range(k):
-                d[v * k + c] = w
-                d[w * k + c] = v
-            d[v * k + la], d[v * k + lb] = X, Y
-            d[w * k + la], d[w * k + lb] = Y, X
-            yield idx, ('dfa', n, k, tuple(d), v, 1)
             idx += 1
+            yield idx, (A, ('dfa', n, k, tuple(d), 0, fb))
